@@ -86,6 +86,20 @@ func (c *FnCtx) objVal(st *State, o types.Object) (Val, bool) {
 
 // globalVar evaluates the initializer of a package-level variable that is never reassigned.
 func (c *FnCtx) globalVar(v *types.Var) (Val, bool) {
+	if cv, ok := c.globalCache[v]; ok {
+		return cv, true
+	}
+	val, ok := c.globalVar1(v)
+	if ok {
+		if c.globalCache == nil {
+			c.globalCache = map[*types.Var]Val{}
+		}
+		c.globalCache[v] = val
+	}
+	return val, ok
+}
+
+func (c *FnCtx) globalVar1(v *types.Var) (Val, bool) {
 	g, ok := c.eng.globals[v]
 	if !ok || g.assigned {
 		val := c.freshVal(v.Type(), "glob_"+v.Name())
@@ -266,7 +280,26 @@ func (c *FnCtx) evalExpr(st *State, e ast.Expr) Val {
 	case *ast.FuncLit:
 		c.litOrd++
 		s := c.fresh("closure", "Fn")
-		return Val{K: KFn, S: s, T: c.typeOf(x), Lit: &closureLit{lit: x, ord: c.litOrd, info: c.info}}
+		cl := &closureLit{lit: x, ord: c.litOrd, info: c.info, captured: map[string]Val{}}
+		// values of the captured variables at creation (used when the literal has a contract)
+		ast.Inspect(x.Body, func(n ast.Node) bool {
+			id, ok := n.(*ast.Ident)
+			if !ok {
+				return true
+			}
+			if v, ok := c.info.Uses[id].(*types.Var); ok && !v.IsField() {
+				if v.Pos() < x.Pos() || v.Pos() > x.End() {
+					if val, ok := st.env[v]; ok {
+						if c.boxed[v] && val.K == KPtr {
+							val = c.readPtr(st, v.Type(), val.S)
+						}
+						cl.captured[v.Name()] = val
+					}
+				}
+			}
+			return true
+		})
+		return Val{K: KFn, S: s, T: c.typeOf(x), Lit: cl}
 	case *ast.CompositeLit:
 		return c.evalCompositeLit(st, x)
 	case *ast.UnaryExpr:
@@ -370,9 +403,10 @@ func (c *FnCtx) evalExpr(st *State, e ast.Expr) Val {
 }
 
 type closureLit struct {
-	lit  *ast.FuncLit
-	ord  int
-	info *types.Info
+	lit      *ast.FuncLit
+	ord      int
+	info     *types.Info
+	captured map[string]Val
 }
 
 func (c *FnCtx) fnConst(fn *types.Func) string {
@@ -1488,6 +1522,7 @@ func (c *FnCtx) ghostAssign(st *State, cl *Clause, iter *State) {
 	c.openBound = c.openBound[:len(c.openBound)-1]
 	nw := c.newHeapVersion(key)
 	c.declared[nw] = true
+		c.isMacro[nw] = true
 	c.emit(fmt.Sprintf("(define-fun %s ((%s Int)) Int %s)", nw, bv, body))
 	st.heaps[key] = nw
 }
